@@ -863,3 +863,275 @@ Proof.
   intros Hfx k Hk. apply roundtrip_stable_picklable; [exact Hpk| |exact Hk].
   unfold stable_class. rewrite G4. exact Hfx.
 Qed.
+
+(* ================================================================== *)
+(* F. building the record is TOTAL: the reads of the stand-in constructors never raise *)
+
+(* The translator emits HOW every attribute of _Frame / _Code / Traceback is read from the live
+   object (K_einfo.frame_reads / code_reads / tb_reads).  Here these reads are executed against a
+   live frame whose namespaces are ARBITRARY dicts: [None] = the read raises (AttributeError for an
+   attribute the interpreter's objects do not have, KeyError for obj.ns[k] with k missing). *)
+Inductive rv := VConst (c : str) | VSlot (a : str) | VCall (a : str) | VSub (c a : str)
+              | VNs (v : gval) | VAbsent.
+
+Definition mem_str (a : str) (l : list str) : bool := existsb (str_eqb a) l.
+Fixpoint nss_get (l : list (str * ns)) (k : str) : option ns :=
+  match l with
+  | [] => None
+  | (k', v) :: r => if str_eqb k k' then Some v else nss_get r k
+  end.
+
+Definition eval_rd (slots : list str) (nss : list (str * ns)) (r : rd) : option rv :=
+  match r with
+  | RdConst c => Some (VConst c)
+  | RdAttr a => if mem_str a slots then Some (VSlot a) else None
+  | RdCall a => if mem_str a slots then Some (VCall a) else None
+  | RdSub c a => if mem_str a slots then Some (VSub c a) else None
+  | RdGet n k d =>
+      match nss_get nss n with
+      | Some m => Some (VNs (ns_default m k (match d with Some s => GStr s | None => GNone end)))
+      | None => None
+      end
+  | RdIndex n k =>
+      match nss_get nss n with
+      | Some m => match ns_get m k with Some v => Some (VNs v) | None => None end
+      | None => None
+      end
+  | RdTryIndex n k =>
+      match nss_get nss n with
+      | Some m => Some (match ns_get m k with Some v => VNs v | None => VAbsent end)
+      | None => None
+      end
+  end.
+
+Definition eval_reads (slots : list str) (nss : list (str * ns))
+           (reads : list (list Z * option (list Z) * rd)) : option (list (str * option str * rv)) :=
+  all_some (map (fun e => match eval_rd slots nss (snd e) with
+                          | Some v => Some (fst e, v)
+                          | None => None
+                          end) reads).
+
+Fixpoint attr_of (vals : list (str * option str * rv)) (a : str) : option rv :=
+  match vals with
+  | [] => None
+  | (a', None, v) :: r => if str_eqb a a' then Some v else attr_of r a
+  | _ :: r => attr_of r a
+  end.
+
+Definition gconst (c : str) : gval := if str_eqb c n_None then GNone else GOther c.
+(* the dict stored in attribute [a]: its keyed entries, program order *)
+Fixpoint dict_of (vals : list (str * option str * rv)) (a : str) : ns :=
+  match vals with
+  | [] => []
+  | (a', Some k, v) :: r =>
+      if str_eqb a a' then
+        match v with
+        | VNs g => (k, g) :: dict_of r a
+        | VConst c => (k, gconst c) :: dict_of r a
+        | VAbsent => dict_of r a
+        | VSlot s | VCall s | VSub _ s => (k, GOther s) :: dict_of r a
+        end
+      else dict_of r a
+  | _ :: r => dict_of r a
+  end.
+
+Definition is_slot (v : option rv) (a : str) : bool :=
+  match v with Some (VSlot b) => str_eqb a b | _ => false end.
+Definition is_sub (v : option rv) (c a : str) : bool :=
+  match v with Some (VSub c' b) => str_eqb c c' && str_eqb a b | _ => false end.
+
+(* Traceback node + _Frame + _Code constructors on one live node, as translated on this run:
+   every read must succeed, the triple (co_filename, co_name, tb_lineno) must be copied verbatim,
+   and the stand-in's f_globals / f_locals are what the keyed reads produced *)
+Definition gen_copy_lframe (l : lframe) : option sframe :=
+  match eval_reads tb_slots [] K_einfo.tb_reads,
+        eval_reads frame_slots [(n_f_globals, lf_globals l); (n_f_locals, lf_locals l)]
+                   K_einfo.frame_reads,
+        eval_reads code_slots [] K_einfo.code_reads with
+  | Some tv, Some fv, Some cv =>
+      if is_sub (attr_of tv n_tb_frame) n_Frame n_tb_frame
+         && is_slot (attr_of tv n_tb_lineno) n_tb_lineno
+         && is_slot (attr_of tv n_tb_lasti) n_tb_lasti
+         && is_sub (attr_of fv n_f_code) n_Code n_f_code
+         && is_slot (attr_of fv n_f_lineno) n_f_lineno
+         && is_slot (attr_of cv n_co_filename) n_co_filename
+         && is_slot (attr_of cv n_co_name) n_co_name
+      then Some (mk_sf (lf_fr l) (dict_of fv n_f_globals) (dict_of fv n_f_locals))
+      else None
+  | _, _, _ => None
+  end.
+
+(* THE TIE: whatever the live frame's namespaces hold (any key missing), the constructors as
+   translated do not raise and build exactly the model's stand-in: a missing __file__ becomes
+   "__main__", a missing __name__ becomes None.  (`frame.f_globals["__name__"]` instead of
+   `.get("__name__")` is translated to RdIndex and makes this lemma false.) *)
+Lemma gen_copy_lframe_eq : forall l, gen_copy_lframe l = Some (copy_lframe l).
+Proof.
+  intros [fr g lo].
+  cbv -[ns_get].
+  repeat match goal with
+         | |- context [ns_get ?d ?k] => destruct (ns_get d k)
+         end; reflexivity.
+Qed.
+
+Definition gen_marker_s : option sframe :=
+  match gen_marker_frame with
+  | Some mk =>
+      Some (mk_sf mk (map (fun kv => (fst kv, match snd kv with Some s => GStr s | None => GNone end))
+                          K_einfo.marker_globals) [])
+  | None => None
+  end.
+Lemma gen_marker_s_eq : gen_marker_s = Some marker_s.
+Proof. reflexivity. Qed.
+
+(* Traceback.__init__ over live nodes with namespaces, executed with the generated guard; a node
+   whose constructor raises makes the whole construction raise *)
+Fixpoint gen_copy_from_l (m d : pv) (f : lframe) (rest : list lframe) : option (list sframe) :=
+  match gen_copy_lframe f with
+  | None => None
+  | Some sf =>
+      match rest with
+      | [] => match K_einfo.step false m d with Stop => Some [sf] | _ => None end
+      | g :: r =>
+          match K_einfo.step true m d with
+          | Recurse m' d' =>
+              match gen_copy_from_l m' d' g r with Some c => Some (sf :: c) | None => None end
+          | Truncate => match gen_marker_s with Some mk => Some [sf; mk] | None => None end
+          | _ => None
+          end
+      end
+  end.
+Definition gen_copy_ltb_default (reclimit : Z) (tb : list lframe) : option (list sframe) :=
+  match tb with
+  | [] => None
+  | f :: r => gen_copy_from_l (K_einfo.default_max_frames (PInt reclimit)) K_einfo.init_depth f r
+  end.
+
+Lemma gen_copy_from_l_eq : forall rest m d f,
+    gen_copy_from_l (PInt m) (PInt d) f rest = Some (copy_from_l m d f rest).
+Proof.
+  induction rest as [|g r IH]; intros m d f.
+  - cbn [gen_copy_from_l copy_from_l]. rewrite gen_copy_lframe_eq, gen_step. reflexivity.
+  - cbn [gen_copy_from_l copy_from_l]. rewrite gen_copy_lframe_eq, gen_step. unfold tb_step.
+    destruct (d <=? m) eqn:E; cbn [emb_action].
+    + rewrite IH. reflexivity.
+    + rewrite gen_marker_s_eq. reflexivity.
+Qed.
+
+Lemma gen_copy_ltb_eq : forall rl tb,
+    gen_copy_ltb_default rl tb = copy_ltb (EInfo.default_max_frames rl) tb.
+Proof.
+  intros rl [|f r]; [reflexivity|].
+  unfold gen_copy_ltb_default. rewrite gen_default_max_frames, gen_init_depth.
+  apply gen_copy_from_l_eq.
+Qed.
+
+(* the (co_filename, co_name, tb_lineno) part of the chain is the chain of section A/B *)
+Lemma copy_from_l_proj : forall rest m d f,
+    map sf_fr (copy_from_l m d f rest) = copy_from m d (lf_fr f) (map lf_fr rest).
+Proof.
+  induction rest as [|g r IH]; intros m d f; cbn [copy_from_l copy_from map]; [reflexivity|].
+  f_equal. destruct (d <=? m); [apply IH|reflexivity].
+Qed.
+
+Lemma copy_ltb_proj : forall m tb c,
+    copy_ltb m tb = Some c -> copy_tb m (map lf_fr tb) = Some (map sf_fr c).
+Proof.
+  intros m [|f r] c H; [discriminate|]. inversion H; subst c. cbn [map copy_tb].
+  rewrite copy_from_l_proj. reflexivity.
+Qed.
+
+Lemma copy_from_l_spec : forall rest m d f,
+    d <= m + 1 ->
+    copy_from_l m d f rest =
+    map copy_lframe (firstn (Z.to_nat (m + 2 - d)) (f :: rest)) ++
+    (if Z.of_nat (length (f :: rest)) >? m + 2 - d then [marker_s] else []).
+Proof.
+  induction rest as [|g r IH]; intros m d f Hd.
+  - cbn [copy_from_l length]. replace (Z.to_nat (m + 2 - d)) with (S (Z.to_nat (m + 1 - d))) by lia.
+    cbn [firstn map]. rewrite firstn_nil.
+    replace (Z.of_nat 1 >? m + 2 - d) with false by lia. reflexivity.
+  - cbn [copy_from_l].
+    replace (Z.to_nat (m + 2 - d)) with (S (Z.to_nat (m + 1 - d))) by lia.
+    cbn [firstn map app]. f_equal.
+    destruct (d <=? m) eqn:E.
+    + rewrite IH by lia. replace (m + 2 - (d + 1)) with (m + 1 - d) by lia.
+      f_equal. cbn [length].
+      destruct (Z.of_nat (S (length r)) >? m + 1 - d) eqn:A;
+        destruct (Z.of_nat (S (S (length r))) >? m + 2 - d) eqn:B; try reflexivity; lia.
+    + assert (Hz : m + 1 - d = 0) by lia. rewrite Hz. cbn [Z.to_nat firstn map app].
+      cbn [length]. replace (Z.of_nat (S (S (length r))) >? m + 2 - d) with true by lia.
+      reflexivity.
+Qed.
+
+(* every node of the stand-in chain is the copy of the live node at the same position; then
+   the marker iff the live chain is longer than m+2 *)
+Theorem copy_ltb_spec : forall m tb,
+    -1 <= m -> tb <> [] ->
+    copy_ltb m tb = Some (map copy_lframe (firstn (Z.to_nat (m + 2)) tb) ++
+                          (if Z.of_nat (length tb) >? m + 2 then [marker_s] else [])).
+Proof.
+  intros m [|f r] Hm Hne; [contradiction|].
+  unfold copy_ltb. rewrite copy_from_l_spec by lia.
+  replace (m + 2 - 0) with (m + 2) by lia. reflexivity.
+Qed.
+
+(* BUILDING THE RECORD NEVER RAISES.  For every non-empty live traceback whose frames have
+   arbitrary namespaces (no __name__, no __file__, no __loader__, anything): Traceback(tb) as
+   translated on this run returns a chain c; its (file, name, line) part is the chain of the depth
+   theorems; node by node it is the model's stand-in of the live node (missing keys became the
+   defaults), followed by the marker iff the live chain is longer than limit+2. *)
+Theorem record_construction_total : forall rl tb,
+    tb <> [] ->
+    exists c, gen_copy_ltb_default rl tb = Some c /\
+              copy_ltb (EInfo.default_max_frames rl) tb = Some c /\
+              copy_tb (EInfo.default_max_frames rl) (map lf_fr tb) = Some (map sf_fr c) /\
+              (0 <= rl ->
+               c = map copy_lframe (firstn (Z.to_nat (rl / 8 + 2)) tb) ++
+                   (if Z.of_nat (length tb) >? rl / 8 + 2 then [marker_s] else [])).
+Proof.
+  intros rl tb Hne. destruct tb as [|f r]; [contradiction|].
+  pose (c := copy_from_l (EInfo.default_max_frames rl) 0 f r).
+  assert (Hc : copy_ltb (EInfo.default_max_frames rl) (f :: r) = Some c) by reflexivity.
+  exists c. split; [rewrite gen_copy_ltb_eq; exact Hc|]. split; [exact Hc|].
+  split; [exact (copy_ltb_proj _ _ _ Hc)|].
+  intros Hrl. unfold EInfo.default_max_frames in Hc.
+  assert (Hm : -1 <= rl / 8) by (pose proof (Z.div_pos rl 8 Hrl); lia).
+  rewrite copy_ltb_spec in Hc by (auto; discriminate). inversion Hc. reflexivity.
+Qed.
+
+(* the stand-in of a live node keeps what the property lists and fills what is missing *)
+Lemma copy_lframe_keeps : forall l,
+    sf_fr (copy_lframe l) = lf_fr l /\
+    map fst (sf_globals (copy_lframe l)) = [k_file; k_name; k_loader] /\
+    ns_get (sf_globals (copy_lframe l)) k_file =
+      Some (match ns_get (lf_globals l) k_file with Some v => v | None => GStr s_main end) /\
+    ns_get (sf_globals (copy_lframe l)) k_name =
+      Some (match ns_get (lf_globals l) k_name with Some v => v | None => GNone end) /\
+    ns_get (sf_globals (copy_lframe l)) k_loader = Some GNone.
+Proof. intros [fr g lo]. repeat split; reflexivity. Qed.
+
+(* the main clause of section E with the record construction made explicit: the task's live
+   traceback comes with arbitrary frame namespaces; the record is built (no exception escapes the
+   worker's handler), and the worker's output is the one of [raising_task_delivered] for the
+   projected chain *)
+Theorem raising_task_record_total : forall fx rl env n job i t x ltb text ptb ptext,
+    ltb <> [] -> env n = PutOk -> env (S n) = PutOk -> picklable_exc fx x ->
+    exists c,
+      gen_copy_ltb_default rl ltb = Some c /\
+      handle_task (EInfo.default_max_frames rl) env n job i (Raises t x (map lf_fr ltb) text) ptb ptext =
+      ([MAck job i; MReady job i false (PInfo (mk_ei t (EWT x text) (map sf_fr c) text false))],
+       inr (S (S n))) /\
+      forall k, (1 <= k)%nat ->
+        exists e', iter_rt fx k (mk_ei t (EWT x text) (map sf_fr c) text false) = Some e' /\
+                   essence e' = (t, x_cls x, x_args x, x_attrs x, text, map sf_fr c).
+Proof.
+  intros fx rl env n job i t x ltb text ptb ptext Hne E0 E1 Hx.
+  destruct (record_construction_total rl ltb Hne) as [c [G1 [_ [G3 _]]]].
+  assert (Hl : map lf_fr ltb <> []) by (destruct ltb; [contradiction|discriminate]).
+  destruct (raising_task_delivered fx (EInfo.default_max_frames rl) env n job i t x (map lf_fr ltb)
+              text ptb ptext Hl E0 E1 Hx) as [c' [e [H1 [_ [_ [He [Hh [_ Hk]]]]]]]].
+  rewrite G3 in H1. inversion H1; subst c'. subst e.
+  exists c. split; [exact G1|]. split; [exact Hh|].
+  intros k Hk1. destruct (Hk k Hk1) as [e' [A [B _]]]. exists e'. split; assumption.
+Qed.
